@@ -1620,4 +1620,221 @@ theorem decodeVariant_size : ∀ (vars : List (List Ty)) (d : Nat) (s : List Nat
 end
 
 
+/-! ### work bound: the cost semantics is linear in the sequence length on every outcome -/
+
+theorem costChunks_le (dec : List Nat → Outcome Val) (cst : List Nat → Nat) (w C : Nat) (hw : 0 < w)
+    (hc : ∀ c, cst c ≤ C * max 1 c.length) :
+    ∀ (n : Nat) (s : List Nat), s.length = n * w → costChunks dec cst w n s ≤ (1 + C) * s.length
+  | 0, s, _ => by simp [costChunks]
+  | n + 1, s, hl => by
+    have hlw : w ≤ s.length := by rw [hl, Nat.add_mul]; omega
+    have h1 := hc (s.take w)
+    have e1 : max 1 (List.take w s).length = w := by simp only [List.length_take]; omega
+    rw [e1] at h1
+    have ih := costChunks_le dec cst w C hw hc n (s.drop w) (by
+      simp only [List.length_drop, hl, Nat.add_mul]; omega)
+    simp only [List.length_drop] at ih
+    obtain ⟨L, hL⟩ : ∃ L, s.length = w + L := ⟨s.length - w, by omega⟩
+    rw [hL] at ih ⊢
+    rw [show w + L - w = L by omega] at ih
+    have e2 : (1 + C) * (w + L) = w + C * w + (1 + C) * L := by
+      rw [Nat.mul_add, Nat.add_mul, Nat.one_mul]
+    rw [e2]
+    simp only [costChunks]
+    split <;> omega
+
+theorem costDyn_le (dec : List Nat → Outcome Val) (cst : List Nat → Nat) (C : Nat)
+    (hc : ∀ c, cst c ≤ C * max 1 c.length) :
+    ∀ (n idx : Nat) (s : List Nat), costDyn dec cst n idx s ≤ (1 + C) * s.length + 1
+  | 0, idx, s => by simp [costDyn]
+  | n + 1, idx, s => by
+    cases s with
+    | nil => simp [costDyn]
+    | cons len rest =>
+      simp only [costDyn]
+      split
+      · omega
+      · split
+        · omega
+        · rename_i _ hlen
+          have h1 := hc (rest.take len)
+          have e1 : (List.take len rest).length = len := by simp only [List.length_take]; omega
+          rw [e1] at h1
+          have ih := costDyn_le dec cst C hc n (idx + 1 + len) (rest.drop len)
+          simp only [List.length_drop] at ih
+          obtain ⟨L, hL⟩ : ∃ L, rest.length = len + L := ⟨rest.length - len, by omega⟩
+          rw [hL] at ih
+          rw [show len + L - len = L by omega] at ih
+          have h2 : C * max 1 len ≤ C * len + C := by
+            have : C * max 1 len ≤ C * (len + 1) := Nat.mul_le_mul_left C (by omega)
+            rw [Nat.mul_add, Nat.mul_one] at this; exact this
+          have e2 : (1 + C) * (len :: rest).length = len + C * len + (1 + C) * L + 1 + C := by
+            simp only [List.length_cons, hL]
+            rw [show len + L + 1 = len + (L + 1) by omega, Nat.mul_add, Nat.mul_add, Nat.add_mul, Nat.one_mul, Nat.mul_one]
+            omega
+          rw [e2]
+          split <;> omega
+
+theorem costList_le (dec : List Nat → Outcome Val) (cst : List Nat → Nat) (sl : Option Nat) (C : Nat)
+    (hc : ∀ c, cst c ≤ C * max 1 c.length) (n : Nat) (s : List Nat) :
+    costList dec cst sl n s ≤ (1 + C) * s.length + 2 := by
+  unfold costList
+  cases sl with
+  | some w =>
+    simp only
+    split; · omega
+    split; · omega
+    split; · omega
+    split; · omega
+    have := costChunks_le dec cst w C (by omega) hc n s (by omega)
+    omega
+  | none =>
+    simp only
+    have := costDyn_le dec cst C hc n 0 s
+    omega
+
+theorem costItem_le (cst : List Nat → Nat) (sl : Option Nat) (C : Nat)
+    (hc : ∀ c, cst c ≤ C * max 1 c.length) (s : List Nat) :
+    costItem cst sl s ≤ 1 + C * max 1 s.length := by
+  unfold costItem
+  cases sl with
+  | some w =>
+    simp only
+    split
+    · omega
+    · have h1 := hc (s.take w)
+      have h2 : C * max 1 (List.take w s).length ≤ C * max 1 s.length :=
+        Nat.mul_le_mul_left C (by simp only [List.length_take]; omega)
+      omega
+  | none =>
+    cases s with
+    | nil => simp
+    | cons len rest =>
+      simp only
+      split
+      · omega
+      · have h1 := hc (rest.take len)
+        have h2 : C * max 1 (List.take len rest).length ≤ C * max 1 (len :: rest).length :=
+          Nat.mul_le_mul_left C (by simp only [List.length_take, List.length_cons]; omega)
+        omega
+
+theorem work_step {a C L M k : Nat} (h : a ≤ (1 + C) * L + k) (hL : L + 1 ≤ M) (hk : k ≤ 2) :
+    1 + a ≤ (3 + C) * M := by
+  have h1 : (1 + C) * (L + 1) ≤ (1 + C) * M := Nat.mul_le_mul_left _ hL
+  have e1 : (1 + C) * (L + 1) = (1 + C) * L + 1 + C := by rw [Nat.mul_add, Nat.mul_one]; omega
+  have e2 : (3 + C) * M = 2 * M + (1 + C) * M := by rw [show 3 + C = 2 + (1 + C) by omega, Nat.add_mul]
+  omega
+
+theorem work_step' {a C M : Nat} (h : a ≤ (1 + C) * M + 2) (hM : 1 ≤ M) : 1 + a ≤ (4 + C) * M := by
+  have e2 : (4 + C) * M = 3 * M + (1 + C) * M := by rw [show 4 + C = 3 + (1 + C) by omega, Nat.add_mul]
+  omega
+
+theorem le_mul_max {k K : Nat} (h : k ≤ K) (n : Nat) : k ≤ K * max 1 n := by
+  have := Nat.mul_le_mul h (one_le_max n); omega
+
+mutual
+theorem cost_le : ∀ (t : Ty) (s : List Nat), cost t s ≤ t.work * max 1 s.length
+  | .bfe, s => by simp [cost, Ty.work]; omega
+  | .u8, s => by simp [cost, Ty.work]; omega
+  | .u16, s => by simp [cost, Ty.work]; omega
+  | .u32, s => by simp [cost, Ty.work]; omega
+  | .u64, s => by simp [cost, Ty.work]; omega
+  | .u128, s => by simp [cost, Ty.work]; omega
+  | .bool, s => by simp [cost, Ty.work]; omega
+  | .phantom, s => by simp [cost, Ty.work]; omega
+  | .box t, s => by
+    have := cost_le t s
+    have hM := one_le_max s.length
+    simp only [cost, Ty.work, Nat.add_mul, Nat.one_mul]; omega
+  | .option t, s => by
+    have hM := one_le_max s.length
+    cases s with
+    | nil => simp only [cost, Ty.work, Nat.add_mul, Nat.one_mul]; omega
+    | cons tag rest =>
+      have := cost_le t rest
+      have h2 : t.work * max 1 rest.length ≤ t.work * max 1 (tag :: rest).length :=
+        Nat.mul_le_mul_left _ (by simp only [List.length_cons]; omega)
+      simp only [cost, Ty.work, Nat.add_mul, Nat.one_mul]
+      split <;> omega
+  | .vec t, s => by
+    cases s with
+    | nil => simp only [cost, Ty.work]; exact le_mul_max (by omega) _
+    | cons n rest =>
+      have := costList_le (fun c => decode t c) (fun c => cost t c) (staticLength t) t.work (cost_le t) n rest
+      simp only [cost, Ty.work]
+      exact work_step this (by simp only [List.length_cons]; omega) (Nat.le_refl 2)
+  | .array n t, s => by
+    have hM := one_le_max s.length
+    simp only [cost, Ty.work]
+    split
+    · exact le_mul_max (by omega) _
+    · have := costList_le (fun c => decode t c) (fun c => cost t c) (staticLength t) t.work (cost_le t) n s
+      have h2 : (1 + t.work) * s.length ≤ (1 + t.work) * max 1 s.length := Nat.mul_le_mul_left _ (by omega)
+      exact work_step' (by omega) hM
+  | .tuple ts, s => by
+    have := costFields_le ts s
+    have hM := one_le_max s.length
+    simp only [cost, Ty.work, Nat.add_mul, Nat.one_mul]; omega
+  | .struct ts, s => by
+    have := costFields_le ts s
+    have hM := one_le_max s.length
+    simp only [cost, Ty.work, Nat.add_mul, Nat.one_mul]; omega
+  | .poly t, s => by
+    simp only [Ty.work]
+    cases s with
+    | nil => simp only [cost]; exact le_mul_max (by omega) _
+    | cons ind rest =>
+      simp only [cost]
+      split; · exact le_mul_max (by omega) _
+      split; · exact le_mul_max (by omega) _
+      cases rest with
+      | nil => simp only; exact le_mul_max (by omega) _
+      | cons n rest' =>
+        simp only
+        have := costList_le (fun c => decode t c) (fun c => cost t c) (staticLength t) t.work (cost_le t) n rest'
+        have h1 := work_step (M := max 1 (ind :: n :: rest').length) this
+          (by simp only [List.length_cons]; omega) (Nat.le_refl 2)
+        have e : (4 + t.work) * max 1 (ind :: n :: rest').length =
+            max 1 (ind :: n :: rest').length + (3 + t.work) * max 1 (ind :: n :: rest').length := by
+          rw [show 4 + t.work = 1 + (3 + t.work) by omega, Nat.add_mul, Nat.one_mul]
+        omega
+  | .u32s n, s => by
+    simp only [cost, Ty.work]
+    split <;> omega
+  | .enum vars, s => by
+    have hM := one_le_max s.length
+    cases s with
+    | nil => simp only [cost, Ty.work, Nat.add_mul, Nat.one_mul]; omega
+    | cons d rest =>
+      have := costVariant_le vars d rest
+      have h2 : Ty.workss vars * max 1 rest.length ≤ Ty.workss vars * max 1 (d :: rest).length :=
+        Nat.mul_le_mul_left _ (by simp only [List.length_cons]; omega)
+      simp only [cost, Ty.work, Nat.add_mul, Nat.one_mul]; omega
+theorem costFields_le : ∀ (ts : List Ty) (s : List Nat), costFields ts s ≤ Ty.works ts * max 1 s.length
+  | [], s => by simp [costFields]
+  | t :: ts, s => by
+    have ih := costFields_le ts s
+    have hM := one_le_max s.length
+    simp only [costFields, Ty.works, Nat.add_mul, Nat.one_mul]
+    split
+    · rename_i vs s' hfs
+      have hr := (decodeFields_size ts s vs s' hfs).2
+      have hi := costItem_le (fun c => cost t c) (staticLength t) t.work (cost_le t) s'
+      have h2 : t.work * max 1 s'.length ≤ t.work * max 1 s.length := Nat.mul_le_mul_left _ (by omega)
+      omega
+    · omega
+theorem costVariant_le : ∀ (vars : List (List Ty)) (d : Nat) (s : List Nat),
+    costVariant vars d s ≤ Ty.workss vars * max 1 s.length
+  | [], d, s => by simp [costVariant]
+  | fs :: rest, d, s => by
+    cases d with
+    | zero =>
+      have := costFields_le fs s
+      simp only [costVariant, Ty.workss, Nat.add_mul]; omega
+    | succ d =>
+      have := costVariant_le rest d s
+      simp only [costVariant, Ty.workss, Nat.add_mul]; omega
+end
+
+
 end TF.Codec
